@@ -245,6 +245,17 @@ def replay_bij(ename, module, mname):
     return ok, rec, what
 
 
+def bij_sig(ename, mname, rec):
+    """the finding is identified by the member AND by what its token resolves to: the same pair of members sharing a
+    token is a different failure when the other one of the two stops reading back as itself"""
+    out = rec.get("impl_outcome")
+    back = out.get("from_xml(to_xml)") if isinstance(out, dict) else None
+    res = out.get("resolves_to", mname) if isinstance(out, dict) else mname
+    if back is None or back == res:
+        return "bij:%s.%s" % (ename, mname)
+    return "bij:%s.%s->%s" % (ename, mname, back if re.match(r"^\w+$", back) else "error")
+
+
 def replay_tok(u, ename, module, mname):
     import importlib
     from pptx.oxml.xmlchemy import OxmlElement
@@ -389,8 +400,8 @@ def run(ck, tier, rng):
     for kind, ids in rows:
         if kind == 1:
             e, r = row_by_id[ids[1]]
-            sig = "bij:%s.%s" % (e["name"], r["name"])
             ok, rec, what = replay_bij(e["name"], e["module"], r["name"])
+            sig = bij_sig(e["name"], r["name"], rec)
             thm = "C20_bijective"
         elif kind == 2:
             u = use_by_id[ids[0]]
@@ -531,7 +542,7 @@ def run(ck, tier, rng):
             npairs += 1
             ok, rec, what = replay_bij(cls.__name__, cls.__module__, name)
             if not ok:
-                ck.violation("bij:%s.%s" % (cls.__name__, name), what, rec)
+                ck.violation(bij_sig(cls.__name__, name, rec), what, rec)
     for u in meta["uses"]:
         toks = xsd_tokens(u["stype"])
         if toks is None:
@@ -561,7 +572,7 @@ def run(ck, tier, rng):
             got = e
             observed.append((m, None))
         if got is not m:
-            ck.violation("bij:%s.%s" % (type(m).__name__, m.name),
+            ck.violation("bij:%s.%s->%s" % (type(m).__name__, m.name, getattr(got, "name", "error")),
                          "MSO_SHAPE.%s added to a slide reads back as %s" % (m.name, getattr(got, "name", repr(got))),
                          {"entry_point": "SlideShapes.add_shape / Shape.auto_shape_type", "kind2": "bij",
                           "input": {"enum": type(m).__name__, "module": type(m).__module__, "member": m.name},
